@@ -40,6 +40,20 @@ STDLIB_REAL_AXIOMS = {
 }
 
 
+class HarnessBuildFailed(Exception):
+    """rustc refuses the harness - valid uses of deserr's public API and derive inputs the unchanged macro accepts -
+    against the repository's current tree: the implementation can no longer be run, so the correspondence cannot be
+    established and the property is no longer shown to hold (reported as a violation, no failing input)."""
+    def __init__(self, what, out):
+        self.what, self.out = what, out
+        super().__init__("%s does not compile against %s" % (what, REPO))
+
+
+def rustc_refused(out):
+    """a compile error issued by rustc (as opposed to cargo being unable to run at all)"""
+    return ("error[E" in out or "error: " in out) and "could not compile" in out
+
+
 class Broken(Exception):
     """The check itself could not do its job (build failure, unreadable output...)."""
 
@@ -250,6 +264,8 @@ def build_harness(generated_rs):
             open(lock_dst, "w").write(lock_src)
             rc, out = sh(["cargo", "build", "--offline", "--quiet"], cwd=HARNESS, timeout=3000)
         if rc != 0:
+            if rustc_refused(out):
+                raise HarnessBuildFailed("the harness crate (/verif/harness)", out)
             raise Broken("harness does not build against %s:\n%s" % (REPO, out[-6000:]))
         mark_fresh(marker, hsh)
         return os.path.join(TARGET, "debug", "verif-harness"), time.time() - t0
